@@ -561,6 +561,64 @@ def run_capacity(ck, rng, quick):
     ck.count("capacity_scripts", len(scripts))
 
 
+def run_groups_reuse(ck, rng, quick):
+    """multiple redundancy groups: every group has its own copy of the event buffer, and a connection is served from the buffer of
+    the group it belongs to -- also when its connection object served a client of ANOTHER group before (the pooled slots are reused
+    across groups).  Clients of two groups take turns on one slot (open-connection limit 1 keeps it to one slot at a time)"""
+    from props import c03
+    h = c07.harness()
+    scripts, meta = [], {}
+    for i in range(10 if quick else 120):
+        k = rng.choice([3, 12])
+        n1, n2, n3 = rng.range(1, 4), rng.range(0, 3), rng.range(1, 3)
+        order = rng.choice(["ABA", "BAB", "ABB", "AAB"])
+        lines = ["cfg mode=2 k=%d w=8 handlers=64 lowq=30 highq=10" % k, "group 10.0.0.1", "group 10.0.0.2", "start"]
+        e = 0
+        sent = {"A": [], "B": []}
+        plan = []
+        ci = 0
+        for ph, g in enumerate(order):
+            for _ in range((n1, n2, n3)[ph]):
+                e += 1
+                lines.append("enq " + c03.ev_asdu(e).hex())
+            ip = "10.0.0.1" if g == "A" else "10.0.0.2"
+            lines += ["connect c%d %s:%d" % (ci, ip, 1000 + ci), "tick", "rx c%d %s" % (ci, apci.STARTDT_ACT.hex()), "tick %d" % (k + 2)]
+            for _ in range(e // k + 2):
+                lines += ["rxs c%d" % ci, "tick %d" % (k + 2)]
+            lines += ["peerclose c%d" % ci, "tick 2"]
+            plan.append((ci, g, e))
+            ci += 1
+        sid = "gr%d" % i
+        scripts.append((sid, lines)); meta[sid] = (k, order, plan)
+    rc = runner.run_batch(h, scripts, timeout=3600)
+    for sid, lines in scripts:
+        k, order, plan = meta[sid]
+        ck.evaluations += 1
+        o = rc.get(sid, dict(out=[], crash=None))
+        if o["crash"]:
+            ck.fail("input", "crash:%s:%s" % (o["crash"]["kind"], o["crash"]["site"]), "server aborted: %s at %s" % (o["crash"]["kind"], o["crash"]["site"]), {"script": lines, "stderr": o["crash"]["text"]})
+            continue
+        got = {}
+        for l in o["out"]:
+            w = l.split()
+            if w[0] == "tx":
+                for f in apci.split_stream(bytes.fromhex(w[2]))[0]:
+                    a = apci.parse_apdu(f)
+                    if a["kind"] == "I" and len(a["asdu"]) >= 8 and a["asdu"][0] == 30:
+                        got.setdefault(w[1], []).append(a["asdu"][6] | a["asdu"][7] << 8)
+        done = {"A": 0, "B": 0}
+        for ci, g, upto in plan:
+            want = list(range(done[g] + 1, upto + 1))
+            have = got.get("c%d" % ci, [])
+            if have != want:
+                ck.fail("input", "oracle:groups-reuse", "multiple-groups server, clients of the groups %s in turn on one connection slot (k=%d): connection c%d of group %s received the events %s, its group's buffer held %s (every event acknowledged by the group's earlier connections removed)" % (
+                    order, k, ci, g, have, want), {"script": lines, "observed": [l[:100] for l in o["out"] if l.startswith(("tx c%d" % ci, "ev "))][:8]})
+                break
+            done[g] = upto
+        ck.nontriv(("groups-reuse", k, order, tuple(p[2] for p in plan)))
+    ck.count("groups_reuse_scripts", len(scripts))
+
+
 def run(ck):
     quick = ck.tier == "quick"
     rng = core.Rng(ck.seed)
@@ -586,6 +644,7 @@ def run(ck):
     _c13.run_sched(ck, h, m, core.Rng(ck.seed + 77), quick, sig="sched-mq")
     run_trace(ck, rng, quick)
     run_capacity(ck, rng, quick)
+    run_groups_reuse(ck, rng, quick)
     run_threaded_resume(ck, rng, quick)
     run_resume_replies(ck, rng, quick)
     run_restart(ck, rng, quick)
